@@ -16,7 +16,7 @@ ASSUMPTIONS = [
     'shutdown (tasks a worker grabs while the cancellation sweep is running are a legitimate race)',
     'error-initiated ends are exempt from (d), as the statement says',
 ]
-N = {'quick': 1500, 'thorough': 12000}
+N = {'quick': 1500, 'thorough': 8000}
 SHARDS = {'quick': 4, 'thorough': 16}
 
 
